@@ -138,6 +138,49 @@ KINDS = {"op-arguments": OPARGS}
 OPS = ["getState", "control", "autoshutdown", "setname", "getschedules", "delsched", "createsched", "stop", "setpos", "getshutter"]
 
 
+# ---- create_schedule on hosts whose zone changes its clocks: the two clock fields of the frame, read back through the zone table ----
+
+import zoneharness as Z  # noqa: E402
+
+
+def _impl_zoned(a):
+    zone, now, start, stop, days = a
+    return H.run_case({"did": "a123bc", "key": "18", "now": now, "tz": zone, "replies": [H.login_reply(b"\x01\x02\x03\x04"), "00"],
+                       "req": {"op": "createsched", "start": start, "stop": stop, "days": days, "form": "set"}})
+
+
+def _judge_zoned(a, out):
+    """Spec: the frame's start and end fields are instants that show the requested HH:MM on today's local date in that zone (decoded
+    with the zone's own table by the Spec)"""
+    zone, now, start, stop, days = a
+    frames = H.frames_of(out)
+    if len(frames) != 2:
+        return [("h2l z=0 -", f"two-frames-expected: {len(frames)} ({H.outcome_of(out)[:40]})")]
+    h = frames[1].hex()
+    tok = Z.zone_token(zone, now)
+    # (a wall time inside a spring-forward gap does not exist that day: the Spec then only asks that nothing was raised)
+    return [(f"c11exists {tok} {int(now // 1)} {int(t[:2])} {int(t[3:])} {fld} {t}", "1") for t, fld in ((start, h[174:182]), (stop, h[182:190]))]
+
+
+ZONED = C.Kind("create_schedule-in-a-zone", impl=_impl_zoned, judge=_judge_zoned, classify=lambda a, o: a[0],
+               nontrivial=lambda a, o: (a[0], int(a[1] // 3600), a[2], a[3]))
+
+
+KINDS["create_schedule-in-a-zone"] = ZONED
+
+
+def _zoned_cases(rng, n_instants):
+    out = []
+    for zone in ("Asia/Jerusalem", "America/New_York", "Australia/Lord_Howe", "Europe/London", "Asia/Kathmandu"):
+        tr = Z.transitions_near(zone)
+        nows = [t + d for t in tr[:6] for d in (-7200, 1800, 30000)] + Z.interesting_instants(rng, zone, 4)
+        for now in nows[:n_instants]:
+            for _ in range(3):
+                a, b = rng.randrange(1440), rng.randrange(1440)
+                out.append((zone, float(now), "%02d:%02d" % divmod(a, 60), "%02d:%02d" % divmod(b, 60), sorted(rng.sample(range(7), rng.randrange(0, 4)))))
+    return out
+
+
 def _targeted(rng):
     out = []
     base = {"did": "a123bc", "key": "18", "now": 1700000000.0, "tz": "UTC", "replies": [H.login_reply(b"\x01\x02\x03\x04"), "00"]}
@@ -168,6 +211,8 @@ def streams(ctx):
     ctx.run_cases(OPARGS, "names-0..40-chars-4-scripts",
                   [{"did": "a123bc", "key": "18", "now": 1700000000.5, "tz": "UTC", "req": {"op": "setname", "name": G.gen_name(rng)},
                     "replies": [G.gen_login(rng), "00"]} for _ in range(ctx.n(1500, 40000))], exhaustive=False, sample_every=700)
+    zc = _zoned_cases(rng, ctx.n(8, 40))
+    ctx.run_cases(ZONED, "create_schedule-on-days-the-clocks-change", zc, exhaustive=False, sample_every=max(1, len(zc) // 2))
     per = ctx.n(250, 5000)
     for op in OPS:
         ctx.run_cases(OPARGS, f"random-{op}", [G.gen_case(rng, op) for _ in range(per)], exhaustive=False, sample_every=max(1, per // 2))
